@@ -55,7 +55,9 @@ type rGen struct {
 	rbuf        int
 	limit       int64
 	badErrSeen  bool
-	whole       bool // cut mode: the whole stream arrives before the transport ends
+	kept        []string // arguments recording handlers received (retained as given)
+	keptCopy    []string // private copies made inside the handler
+	whole       bool     // cut mode: the whole stream arrives before the transport ends
 	tailBig     bool
 	localClosed bool
 	nonMinCtl   bool
@@ -259,7 +261,7 @@ func (g *rGen) violation(inMsg bool) (encFrame, string) {
 	if inMsg {
 		base.op = 0
 	}
-	switch r.Intn(13) {
+	switch r.Intn(16) {
 	case 0:
 		base.rsv2 = true
 		return base, "rsv2"
@@ -306,6 +308,16 @@ func (g *rGen) violation(inMsg bool) (encFrame, string) {
 		return base, "top bit length"
 	case 11:
 		return encFrame{fin: true, op: 8, payload: g.data(126), lenClass: 0}, "control > 125"
+	case 13, 14:
+		// a control frame whose length field is 126 / 127 (extended length) although its payload is short:
+		// RFC 6455 5.5 "all control frames MUST have a payload length of 125 bytes or less", and the
+		// length field itself says more
+		op := []int{8, 9, 10}[r.Intn(3)]
+		p := g.data(r.Intn(20))
+		if op == 8 {
+			p = append([]byte{0x03, 0xe8}, p...)
+		}
+		return encFrame{fin: true, op: op, payload: p, lenClass: 1 + r.Intn(2)}, "control with extended length"
 	default:
 		base.rsv2, base.rsv3 = true, true
 		base.op = 5
@@ -536,6 +548,9 @@ func (g *rGen) setup() {
 		}
 		return func(s string) error {
 			g.log.add("H:" + name + ":" + hx([]byte(s)))
+			// keep the argument itself and a private copy: the handler's string must stay what it was
+			g.kept = append(g.kept, s)
+			g.keptCopy = append(g.keptCopy, string(append([]byte(nil), s...)))
 			if strings.HasPrefix(mode, "fail") {
 				var id int
 				fmt.Sscanf(mode, "fail%d", &id)
@@ -644,6 +659,7 @@ func (g *rGen) opNextReader() bool {
 	defer func() {
 		if p := recover(); p != nil {
 			g.sc.emit("nr c0", g.line("panic"))
+			g.sc.violate("NextReader panicked on network input: %v", p)
 		}
 	}()
 	t, rd, err := g.c.NextReader()
@@ -801,6 +817,7 @@ func (g *rGen) opReadMessage() bool {
 	}()
 	if panicked {
 		g.sc.emit("rm c0", g.line("panic"))
+		g.sc.violate("ReadMessage panicked on network input")
 		return false
 	}
 	mi := g.nrOK
@@ -1135,6 +1152,13 @@ func readerOracle(g *rGen) {
 			}
 		}
 	}
+	// C08: a handler receives the exact payload — also after it has returned (an application may keep it)
+	for i := range g.kept {
+		if g.kept[i] != g.keptCopy[i] {
+			sc.violate("the payload handed to a handler changed after the handler returned: it was %x, it now reads %x (it aliases the read buffer)", g.keptCopy[i], g.kept[i])
+			break
+		}
+	}
 	// C05: once NextReader has returned an error the reader never reads from the transport again (the
 	// error is permanent even if the fault was transient and the transport has more bytes)
 	if g.t.readAfterErr > 0 {
@@ -1216,12 +1240,21 @@ func runFuzzScenario(seed int64) *scenario {
 			}
 			hdr := []byte{b[i], b[i+1]&0x80 | 127}
 			var l [8]byte
-			switch r.Intn(4) {
+			switch r.Intn(5) {
 			case 0:
 				l = [8]byte{0x7f, 0xff, 0xff, 0xff, 0xff, 0xff, 0xff, 0xff}
 			case 1:
 				l = [8]byte{0x80, 0, 0, 0, 0, 0, 0, 0}
 			case 2:
+				if r.Intn(2) == 0 {
+					// a "small negative" length: 2^64 - k
+					k := uint64(1 + r.Intn(300))
+					v := ^uint64(0) - k + 1
+					for i := 0; i < 8; i++ {
+						l[i] = byte(v >> uint(56-8*i))
+					}
+					break
+				}
 				// a large but allocatable claim: 16 MiB .. 128 MiB
 				l = [8]byte{0, 0, 0, 0, byte(1 << uint(r.Intn(4))), 0, 0, 0}
 			default:
@@ -1278,6 +1311,7 @@ func runFuzzScenario(seed int64) *scenario {
 	ms0.read()
 	delivered := 0
 	firstErr := ""
+	okMsgs := 0
 	for i := 0; i < 30; i++ {
 		var t int
 		var p []byte
@@ -1306,6 +1340,7 @@ func runFuzzScenario(seed int64) *scenario {
 			}
 			break
 		}
+		okMsgs++
 		sc.emit("rm c0", g.line(fmt.Sprintf("ok %d %s", t, hx(p))))
 	}
 	ms1.read()
@@ -1315,6 +1350,15 @@ func runFuzzScenario(seed int64) *scenario {
 	// C06 on arbitrary streams: if, walking the frame headers independently, the first irregular event is a
 	// data frame whose claimed length takes the message's running sum over the limit, the first error
 	// the application sees is ErrReadLimit
+	if k, before := firstEvent(b, g.srv, limit); k == "topbit" || k == "limit" {
+		// C06: the frame is refused where it stands: ErrReadLimit, and no message that contains it is delivered
+		if okMsgs > before {
+			sc.violate("%d messages were delivered although only %d are complete before the data frame with a %s length", okMsgs, before, map[string]string{"topbit": "top-bit (negative as int64)", "limit": "limit-breaking"}[k])
+		}
+		if firstErr != "" && firstErr != "readLimit" && okMsgs == before {
+			sc.violate("a data frame with a %s length was answered with %q instead of ErrReadLimit", k, firstErr)
+		}
+	}
 	if limit > 0 && firstErr != "" && limitIsFirstEvent(b, g.srv, limit) && firstErr != "readLimit" {
 		sc.violate("a frame takes the running sum of its message over the read limit %d before anything else is wrong with the stream, but the reader reported %q instead of ErrReadLimit", limit, firstErr)
 	}
@@ -1325,40 +1369,48 @@ func runFuzzScenario(seed int64) *scenario {
 	return sc
 }
 
-// limitIsFirstEvent walks the frame headers of a peer stream (independently of the package and of the
-// model) and reports whether the first thing that is not a complete, valid frame is a data frame whose
-// claimed length makes the running sum of its message exceed limit. Anything else irregular first
-// (protocol violation, close frame, truncation inside an earlier frame, top-bit length) => false.
-func limitIsFirstEvent(b []byte, srv bool, limit int64) bool {
+// firstEvent walks the frame headers of a peer stream (independently of the package and of the model)
+// and classifies the first thing that is not a complete, valid frame:
+//
+//	"limit"  a data frame whose claimed length makes the running sum of its message exceed limit (limit > 0)
+//	"topbit" a data frame whose 64-bit length has the top bit set
+//	"other"  anything else (protocol violation, close frame, truncation, end of stream)
+//
+// together with the number of complete data messages before it.
+func firstEvent(b []byte, srv bool, limit int64) (kind string, msgsBefore int) {
 	pos := 0
 	inMsg := false
 	sum := new(big.Int)
 	lim := big.NewInt(limit)
 	for {
 		if pos+2 > len(b) {
-			return false
+			return "other", msgsBefore
 		}
 		b0, b1 := b[pos], b[pos+1]
 		fin, rsv, op := b0&0x80 != 0, b0&0x70, int(b0&0x0f)
 		masked, l7 := b1&0x80 != 0, int(b1&0x7f)
 		if rsv != 0 || masked != srv {
-			return false
+			return "other", msgsBefore
 		}
+		dataOK := (op == 1 || op == 2) && !inMsg || op == 0 && inMsg
 		h := 2
 		n := new(big.Int)
 		switch l7 {
 		case 126:
 			if pos+4 > len(b) {
-				return false
+				return "other", msgsBefore
 			}
 			n.SetUint64(uint64(b[pos+2])<<8 | uint64(b[pos+3]))
 			h = 4
 		case 127:
 			if pos+10 > len(b) {
-				return false
+				return "other", msgsBefore
 			}
 			if b[pos+2]&0x80 != 0 {
-				return false
+				if dataOK {
+					return "topbit", msgsBefore
+				}
+				return "other", msgsBefore
 			}
 			var v uint64
 			for i := 0; i < 8; i++ {
@@ -1374,36 +1426,44 @@ func limitIsFirstEvent(b []byte, srv bool, limit int64) bool {
 		}
 		switch {
 		case op == 8:
-			return false
+			return "other", msgsBefore
 		case op == 9 || op == 10:
 			if !fin || l7 > 125 {
-				return false
+				return "other", msgsBefore
 			}
 		case op == 1 || op == 2:
 			if inMsg {
-				return false
+				return "other", msgsBefore
 			}
 			sum.SetInt64(0)
 		case op == 0:
 			if !inMsg {
-				return false
+				return "other", msgsBefore
 			}
 		default:
-			return false
+			return "other", msgsBefore
 		}
 		if op <= 2 {
 			sum.Add(sum, n)
 			if pos+h > len(b) {
-				return false // the header itself (mask key) is cut
+				return "other", msgsBefore // the header itself (mask key) is cut
 			}
-			if sum.Cmp(lim) > 0 {
-				return true
+			if limit > 0 && sum.Cmp(lim) > 0 {
+				return "limit", msgsBefore
 			}
 			inMsg = !fin
 		}
 		if pos+h > len(b) || !n.IsInt64() || n.Int64() > int64(len(b)-pos-h) {
-			return false // an earlier frame is cut short
+			return "other", msgsBefore // an earlier frame is cut short
 		}
 		pos += h + int(n.Int64())
+		if op <= 2 && fin {
+			msgsBefore++
+		}
 	}
+}
+
+func limitIsFirstEvent(b []byte, srv bool, limit int64) bool {
+	k, _ := firstEvent(b, srv, limit)
+	return k == "limit"
 }
